@@ -131,6 +131,12 @@ static std::vector<vc::Point> runCase(World &W, const Case &c, bool inputValid, 
     // param 4 (perturb only): param 3 on a DENSE input (the waypoint path subdivided twice: vertex spacing below the snap distance, so the
     // two ends of the perturbed stretch land on vertices with several old vertices between them)
     bool useField = (c.param >= 2) && (c.routine == "perturb" || c.routine == "findBetterGoal");
+    // params 3 (coarse snap) and 4 (fine snap: cut points inside segments), shortcutting only: the same cost field as the routine's own
+    // objective. It is additive but not the space's metric, so "shorter" and "cheaper" differ and the cost bookkeeping of the shortcut
+    // (partial segments before / after the cut points) decides what is accepted. The field is linear, so the objective's trapezoid rule
+    // is exact under any subdivision of a straight segment.
+    bool fieldShortcut = c.param >= 3 && (c.routine == "partialShortcut" || c.routine == "ropeShortcut");
+    useField = useField || fieldShortcut;
 
     if (useField)
         obj = std::make_shared<Problem::FieldIntegral>(P.si);
@@ -151,7 +157,7 @@ static std::vector<vc::Point> runCase(World &W, const Case &c, bool inputValid, 
     ob::PlannerTerminationCondition ptc([&] { return ++calls > 25; });
     bool ret = false;
     unsigned maxSteps = c.param == 0 ? 1 : 3;
-    double ratio = c.param == 1 ? 1.0 : 0.33, snap = (c.param == 1 || c.param == 3) ? 0.5 : c.param == 4 ? 0.1 : 0.005;
+    double ratio = c.param == 1 ? 1.0 : 0.33, snap = (c.param == 1 || c.param == 3) ? 0.5 : (c.param == 4 && c.routine == "perturb") ? 0.1 : 0.005;
     const std::string &r = c.routine;
     W.rec->ok.clear();
     {
@@ -264,9 +270,9 @@ static std::vector<vc::Point> runCase(World &W, const Case &c, bool inputValid, 
                 fail(K + "state-out-of-bounds", "result state " + std::to_string(i) + " out of bounds");
         // (the combined routines contain B-spline smoothing and are not claimed never to lengthen)
         bool shortcutting = r == "reduceVertices" || r == "partialShortcut" || r == "ropeShortcut" || r == "collapseClose";
-        if (shortcutting && path.length() > before.length() + 1e-9 * (1 + before.length()))
+        if (shortcutting && !fieldShortcut && path.length() > before.length() + 1e-9 * (1 + before.length()))
             fail(K + "path-longer", "length went from " + vf::jnum(before.length()) + " to " + vf::jnum(path.length()));
-        bool costAware = r == "perturb" || r == "findBetterGoal";
+        bool costAware = r == "perturb" || r == "findBetterGoal" || fieldShortcut;
         if (costAware)
         {
             double cb = objCost(obj, before), ca = objCost(obj, path);
@@ -334,7 +340,7 @@ static void runRoutine(const std::string &map, const std::string &routine, const
             if (wanted)
             {
                 ++inputs;
-                for (int param = 0; param < (routine == "perturb" ? 5 : 3); ++param)
+                for (int param = 0; param < (routine == "perturb" || routine == "partialShortcut" ? 5 : routine == "ropeShortcut" ? 4 : 3); ++param)
                 {
                     Case c{map, routine, p, param, {}};
                     auto run = [&](const std::map<size_t, int> &dev) {
